@@ -150,6 +150,34 @@ CLAIMED = {
               "every later data segment on an answered flow got another 401 was repaired in /repo (fix ab1cb4b: the parser "
               "state is reset after a reply)."),
         technique="Coq theorems (reference grammar + exact parser language + response template facts by vm_compute) + model/implementation correspondence + extracted monitors"),
+    "C18": dict(
+        text=("Coq theorems over the model of reply(), down to whole frames: the SSH parser model (index loop with `i -= 1` "
+              "re-examination) reaches its accepting state exactly on the reference language 'SSH-' (digits|dots)* '-' "
+              "arbitrary-bytes CR LF anything, written independently as a declarative grammar and as a boolean scanner and "
+              "proved equivalent (a CR not followed by LF is data; the terminator is the first CR LF after the version dash), "
+              "for every byte string, with the loop's fuel proved sufficient; a payload identified as SSH is answered with the "
+              "dumped banner iff it is in that language and with nothing otherwise; a payload identified as Gh0st is answered "
+              "with the dumped frame; lifted through proto::repl, the UDP/TCP responders and the frame builders to the "
+              "frame-level monitors: for every configuration, table and frame, what reply() emits for a UDP datagram in scope, "
+              "and for the first accepted data segment of a TCP flow (state level unconditionally; history level against the "
+              "4-tuple reference model assuming no cookie collision), carries exactly the prescribed application payload. "
+              "Per-run obligations decided by kernel computation on the data dumped from the implementation: the banner equals "
+              "the literal 'SSH-2.0-1\\r\\n'; the Gh0st frame starts with the magic, its LE32 at offset 5 equals the frame "
+              "length, and its body is exactly one zlib stream that a reference RFC 1950/1951 decoder written in Coq "
+              "(stored/fixed/dynamic Huffman, Adler-32 verified) inflates to as many bytes as the LE32 at offset 9 declares; "
+              "the compiled matcher identifies a byte string as SSH iff it starts with 'SSH-2.0' or 'SSH-1.99' and as Gh0st "
+              "iff it starts with 'Gh0st' (closure of a safe-row set + trie walk over all 256 byte values, soundness proved "
+              "once). Tied to /repo by differential execution (hooked implementation vs extracted model on the application "
+              "payload of every answer, UDP and TCP, IPv4 and IPv6) and by evaluating the extracted monitors and an "
+              "independent Python reading (regular expression, zlib.decompress) on the implementation's own output."),
+        design="DESIGN.md section 5, C18",
+        note=("Trusted: Coq kernel/vm_compute, extraction + OCaml driver, harness, data translator for tables and constants; the "
+              "correspondence between Rust control flow and the model is testing (systematic byte sweeps at every parser "
+              "position, all terminator variants, CR runs, Gh0st tails 0..1400); pnet accessor semantics modelled. The "
+              "reference zlib decoder is validated against Python's zlib on stored/fixed/dynamic streams (Examples by "
+              "vm_compute). Multi-segment identification strings are outside the property's wording and not claimed (the SSH "
+              "parser keeps no state across segments). The history-level TCP statement carries no_collision (C08 known finding)."),
+        technique="Coq language-equivalence theorem for the parser + frame-level lift + per-run kernel-decided constant/table obligations (reference inflate, identification trie walk) + model/implementation correspondence + extracted monitors"),
     "C19": dict(
         text=("Coq theorems over the model's application layer: for every datagram payload, and for every first TCP data "
               "segment, the reply is render(core, context) where the core (silent / constant bytes / STUN transaction id + "
